@@ -852,15 +852,18 @@ static const char* scanf_fmtstr(const char* src, char* type)
 
     const char* r; // result
     int ok = (r = try_fmt(src, exp, "%*"PRIi64"h%n", _type, 'h'))
-          || (r = try_fmt(src, exp, "%*d%n", _type, 'i'))
           || (r = try_fmt(src, exp, "%*"PRIi32"i%n", _type, 'i'))
           || (r = try_fmt(src, exp, i32, _type, 'i'))
+          // not a C literal (e.g. "08"), but still a decimal integer
+          || (r = try_fmt(src, exp, "%*d%n", _type, 'i'))
           || (r = try_fmt(src, exp, "%*lfd%n", _type, 'd'))
           || (r = try_fmt(src, exp, "%*ff%n", _type, 'f'))
           || (r = try_fmt(src, exp, "%*f%n", _type, 'f'));
     (void)ok;
+    // hex literals may use all 32 bits, so they are read unsigned;
+    // decimal and octal ("077") literals keep their meaning
     if(r == i32)
-        r = "%*x%n";
+        r = memchr(src, 'x', exp) ? "%*x%n" : "%*"PRIi32"%n";
     return r;
 }
 
